@@ -127,6 +127,8 @@ def run(ctx: common.Run):
     check_circuits(ctx, cirq, sympy, max(20, n // 5))
     check_gate_families(ctx, cirq, sympy, 3 if ctx.tier == 'quick' else 25)
     check_compose(ctx, cirq, sympy, n)
+    check_single_pass_wrappers(ctx, cirq, sympy)
+    check_symbolic_repetitions(ctx, cirq, sympy)
 
 
 def check_sweeps(ctx, cirq, n):
@@ -593,6 +595,118 @@ def check_gate_families(ctx, cirq, sympy, rounds):
                     ctx.report_witness(f'family:resolve:{name}', 'resolving the parameters of a gate gives a different matrix than building the gate from the resolved numbers',
                                        dict(rep, impl_out=[repr(res)], spec_out=[repr(num)]))
                     break
+
+
+def check_single_pass_wrappers(ctx, cirq, sympy):
+    """single-pass resolution (recursive=False, resolve_parameters_once) goes through every wrapper the way it goes through the bare
+    operation: with the chain {a: b, b: v} the result mentions `b`, never `v` or `a`, and is the wrapper of the bare result; recursive
+    resolution of the same object reaches `v`.  Sub-circuit parameter resolvers are applied in one pass too."""
+    rng = ctx.substream('single-pass')
+    a, b, c = sympy.symbols('a b c')
+    q = cirq.LineQubit.range(3)
+    for it in range(12 if ctx.tier == 'quick' else 120):
+        v = round(rng.uniform(-1, 1), 3)
+        base = rng.choice([cirq.X, cirq.Z, cirq.Y])(q[0]) ** a
+        chain = rng.choice([{a: b, b: v}, {a: b + 1, b: v}, {a: b, b: c, c: v}])
+        wrappers = {
+            'bare': lambda o: o,
+            'tagged': lambda o: o.with_tags('t'),
+            'tagged-twice': lambda o: o.with_tags('t').with_tags('u'),
+            'controlled': lambda o: o.controlled_by(q[1]),
+            'tagged-controlled': lambda o: o.with_tags('t').controlled_by(q[1]),
+            'classically-controlled': lambda o: o.with_classical_controls('m'),
+            'circuit-op': lambda o: cirq.CircuitOperation(cirq.FrozenCircuit(o)),
+            'circuit-op(tagged inside)': lambda o: cirq.CircuitOperation(cirq.FrozenCircuit(o.with_tags('t'))),
+            'moment': lambda o: cirq.Moment(o.with_tags('t'), cirq.H(q[2])),
+            'circuit': lambda o: cirq.Circuit(o.with_tags('t'), cirq.H(q[2])),
+            'frozen-circuit': lambda o: cirq.FrozenCircuit(o.with_tags('t')),
+        }
+        bare_once = cirq.resolve_parameters(base, chain, recursive=False)
+        for wname, w in wrappers.items():
+            obj = w(base)
+            ctx.count('check', 'single-pass:' + wname)
+            ctx.case(['single-pass', wname, repr(base), repr(chain)], True)
+            rep = {'lines': [{'wrapper': wname, 'object': repr(obj)[:300], 'resolver': {str(k): str(x) for k, x in chain.items()}}], 'theorem_or_correspondence': 'C10 single-pass substitution'}
+            for form, f in (('recursive=False', lambda: cirq.resolve_parameters(obj, chain, recursive=False)), ('resolve_parameters_once', lambda: cirq.resolve_parameters_once(obj, chain))):
+                try:
+                    got = f()
+                except RecursionError:
+                    ctx.report_witness(f'resolve:single-pass:{wname.split("(")[0]}', f'{form} on a wrapped operation recurses', dict(rep, impl_out=['RecursionError'], spec_out=[repr(w(bare_once))[:300]]))
+                    break
+                want = w(bare_once)
+
+                def unitary_at(x, env):
+                    y = cirq.resolve_parameters(x, env)
+                    y = y.without_classical_controls() if isinstance(y, cirq.Operation) else y
+                    return cirq.unitary(cirq.Circuit(y)) if isinstance(y, cirq.Moment) else cirq.unitary(y)
+
+                env = {nm: round(rng.uniform(-1, 1), 3) for nm in sorted(cirq.parameter_names(want))}
+                # (a sub-circuit operation may keep the substitution as its own resolver instead of rewriting its body: compare meanings)
+                if cirq.parameter_names(got) != cirq.parameter_names(want) or (got != want and not np.allclose(unitary_at(got, env), unitary_at(want, env), atol=1e-8)):
+                    ctx.report_witness(f'resolve:single-pass:{wname.split("(")[0]}', f'{form} through a wrapper is not the wrapper of the single-pass result of the operation',
+                                       dict(rep, impl_out=[repr(got)[:400]], spec_out=[repr(want)[:400]]))
+                    break
+            full = cirq.resolve_parameters(obj, chain)
+            if cirq.is_parameterized(full):
+                ctx.report_witness(f'resolve:recursive:{wname.split("(")[0]}', 'recursive resolution through a wrapper leaves symbols of a closed chain', dict(rep, impl_out=[repr(full)[:400]], spec_out=['no symbols']))
+        # a sub-circuit that binds its own parameters: the binding is one substitution step, outer parameters stay visible
+        sub = cirq.CircuitOperation(cirq.FrozenCircuit((cirq.X(q[0]) ** a).with_tags('t'), cirq.Z(q[0]) ** b), param_resolver={a: b, b: v})
+        ctx.count('check', 'single-pass:sub-circuit-binding')
+        if cirq.parameter_names(sub) != {'b'}:
+            ctx.report_witness('resolve:single-pass:circuit-op-binding', 'a sub-circuit binding {a: b, b: v} (one substitution step) must leave the outer parameter b on the operations that were written with a',
+                               {'lines': [{'object': repr(sub)[:400]}], 'impl_out': [sorted(cirq.parameter_names(sub))], 'spec_out': [['b']], 'theorem_or_correspondence': 'C10 single-pass substitution'})
+        else:
+            w_outer = round(rng.uniform(-1, 1), 3)
+            got_u = cirq.unitary(cirq.resolve_parameters(sub, {b: w_outer}))
+            want_u = cirq.unitary(cirq.Z ** v) @ cirq.unitary(cirq.X ** w_outer)
+            if not np.allclose(got_u, want_u, atol=1e-8):
+                ctx.report_witness('resolve:single-pass:circuit-op-binding', 'the unitary of a sub-circuit with a chained binding is not the one-step substitution', {'lines': [{'object': repr(sub)[:400], 'outer': w_outer}],
+                                   'impl_out': [repr(np.round(got_u, 6).tolist())], 'spec_out': [repr(np.round(want_u, 6).tolist())], 'theorem_or_correspondence': 'C10 single-pass substitution'})
+
+
+def check_symbolic_repetitions(ctx, cirq, sympy):
+    """a sub-circuit with a symbolic repetition count, resolved at every point of a sweep: the count is the integer the value denotes (grids
+    built with Linspace carry floating-point error of a few ulp), for positive and negative counts; a value that is not an integer is refused"""
+    rng = ctx.substream('repetitions')
+    n = sympy.Symbol('n')
+    q = cirq.LineQubit(0)
+    body = cirq.FrozenCircuit(cirq.X(q) ** 0.25)
+    op = cirq.CircuitOperation(body, repetitions=n)
+    grids = [(1, 6, 6), (1, 7, 7), (1, 10, 10), (2, 9, 8), (-6, -1, 6), (0, 12, 13)]
+    values = []
+    for lo, hi, k in grids:
+        values += [(float(x), None) for x in (r.value_of('n') for r in cirq.Linspace('n', lo, hi, k))]
+    for _ in range(20):
+        m = rng.randint(-9, 12)
+        values.append((m * (1 + rng.choice([-1, 1]) * 2.0 ** -52) if m else 0.0, m))
+        values.append((100 * (m / 100.0), m))
+    for val, intended in values:
+        want_n = intended if intended is not None else int(round(val))
+        ctx.count('check', 'symbolic-repetitions')
+        ctx.case(['repetitions', val], True)
+        try:
+            res = cirq.resolve_parameters(op, {n: val})
+            got_n = res.repetitions
+            u = cirq.unitary(res)
+        except (ValueError, TypeError) as e:
+            ctx.report_witness('resolve:repetitions:raises', 'a repetition count that is an integer up to rounding error is refused', {'lines': [{'value': repr(val)}], 'impl_out': [f'{type(e).__name__}: {e}'[:200]], 'spec_out': [want_n],
+                               'theorem_or_correspondence': 'C10 resolution commutes with repetition'})
+            continue
+        want_u = cirq.unitary(cirq.X ** (0.25 * want_n))
+        if got_n != want_n or not np.allclose(u, want_u, atol=1e-8):
+            ctx.report_witness('resolve:repetitions', 'a symbolic repetition count resolves to a different number of repetitions than the value denotes', {'lines': [{'value': repr(val)}], 'impl_out': [repr(got_n)], 'spec_out': [want_n],
+                               'theorem_or_correspondence': 'C10 resolution commutes with repetition'})
+    # sweep entry point
+    sim = cirq.Simulator(dtype=np.complex128)
+    for lo, hi, k in grids[:4]:
+        results = sim.simulate_sweep(cirq.Circuit(op), cirq.Linspace('n', lo, hi, k))
+        for j, r in enumerate(results):
+            want_v = cirq.unitary(cirq.X ** (0.25 * (lo + j)))[:, 0]
+            ctx.count('check', 'symbolic-repetitions:sweep')
+            if not np.allclose(r.final_state_vector, want_v, atol=1e-7):
+                ctx.report_witness('resolve:repetitions:sweep', 'simulate_sweep over a Linspace of repetition counts runs a different number of repetitions at one point', {'lines': [{'linspace': [lo, hi, k], 'point': j}],
+                                   'impl_out': [repr(np.round(r.final_state_vector, 6).tolist())], 'spec_out': [repr(np.round(want_v, 6).tolist())], 'theorem_or_correspondence': 'C10 resolution commutes with repetition'})
+                break
 
 
 def replay(ctx, rep):
